@@ -44,11 +44,32 @@ needs_cli() { case "$1" in C08|C10|C11|C14|C15|C18|C19|C21|C22|C24|C26|C27|C28|C
 
 if [ "${1:-}" = "replay" ]; then
   [ -n "${2:-}" ] || { echo "usage: run.sh replay <file>" >&2; exit 2; }
-  id="$(python3 -c 'import json,sys;print(json.load(open(sys.argv[1]))["property"])' "$2")" || exit 2
-  build_cfg default || exit 2
+  file="$(readlink -f "$2")"
+  id="$(python3 -c 'import json,sys;print(json.load(open(sys.argv[1]))["property"])' "$file")" || exit 2
+  cfgs="$(configs_of "$id")"
+  for c in $cfgs; do build_cfg "$c" || exit 2; done
   if needs_cli "$id"; then build_cli || exit 2; fi
   export VH_CLI="$ROOT/target/cli/release/succinctly"
-  exec "$ROOT/target/default/release/vh" replay "$2"
+  set -- $cfgs
+  if [ $# -eq 1 ]; then exec "$ROOT/target/default/release/vh" replay "$file"; fi
+  # matrix property: replay in every configuration, then compare the dumps
+  worst=0; rm -f "$ROOT"/out/replay-dump.*.txt
+  for c in $cfgs; do
+    if [ "$c" = sse2 ]; then SUCCINCTLY_SIMD=sse2 VH_CONFIG="$c" "$ROOT/target/default/release/vh" replay "$file"
+    else VH_CONFIG="$c" "$ROOT/target/$(tdir_of "$c")/release/vh" replay "$file"; fi
+    rc=$?; if [ $rc -eq 1 ]; then worst=1; elif [ $rc -ne 0 ] && [ $worst -ne 1 ]; then worst=2; fi
+  done
+  first=""
+  for f in "$ROOT"/out/replay-dump.*.txt; do
+    [ -e "$f" ] || continue
+    if [ -z "$first" ]; then first="$f"; continue; fi
+    if ! cmp -s "$first" "$f"; then
+      echo "VIOLATION property=$id replay=$file"
+      echo "  dumps differ: $first vs $f" >&2; diff "$first" "$f" | head -20 >&2
+      worst=1
+    fi
+  done
+  exit $worst
 fi
 
 id="${1:-}"; tier="${VERIF_TIER:-${2:-quick}}"
@@ -67,6 +88,7 @@ fi
 
 # configuration matrix: same seeded case stream in every configuration
 worst=0; parts=()
+rm -f "$ROOT/out/parts/$id."*
 for c in $cfgs; do
   part="$ROOT/out/parts/$id.$c.json"; rm -f "$part"; parts+=("$part")
   if [ "$c" = sse2 ]; then
